@@ -22,7 +22,7 @@ def payload_for(schema, k, rng):
         if f == "k":
             p[f] = k
         elif spec == "string":
-            p[f] = rng.choice(["x", "y", "zed", "", "a b", "17"])
+            p[f] = rng.choice(["x", "y", "zed", "a b", "w-1"])
         elif spec == "float":
             p[f] = rng.choice([0.5, 1.5, -2.25, 3.0, 100.125])
         elif spec == "bool":
@@ -760,9 +760,224 @@ class C02(Base):
             yield query_history("C02", seed, i, mk)
 
 
+
+# ====================================================================== C07
+
+V_SCHEMA = {"k": "int", "i": "int", "u": "u64", "f": "float", "s": "string", "b": "bool", "e": ["red", "green", "Blue"],
+            "dt": "datetime", "d": "date", "os": "string | null", "oi": "int | null"}
+
+V_POOLS = {
+    "i": [("i:small", 0), ("i:small", -1), ("i:small", 42), ("i:max", 9223372036854775807), ("i:min", -9223372036854775808),
+          ("i:big", 4611686018427387904), ("i:2^53+1", 9007199254740993)],
+    "u": [("u:small", 0), ("u:small", 7), ("u:gt_i64max", 9223372036854775808), ("u:max", 18446744073709551615)],
+    "f": [("f:frac", 1.5), ("f:frac", -2.25), ("f:integral", 3.0), ("f:tiny", 1e-9), ("f:huge", 1e300), ("f:zero", 0.0), ("f:neg0", -0.0)],
+    "s": [("s:plain", "x"), ("s:plain", "hello world"), ("s:empty", ""), ("s:numeric", "17"), ("s:numeric", "-3.5"),
+          ("s:boolish", "true"), ("s:nullish", "null"), ("s:unicode", "héllo wörld ✓ 日本"), ("s:long", "L" * 3000),
+          ("s:space", " lead and trail "), ("s:jsonish", "{\"a\":1}"), ("s:quote", "it's")],
+    "b": [("b:true", True), ("b:false", False)],
+    "e": [("e:variant", "red"), ("e:variant", "green"), ("e:variant", "Blue")],
+    "dt": [("dt:epoch_s", 1735787045), ("dt:iso", "2025-01-02T03:04:05Z"), ("dt:epoch_ms", 1735787045000)],
+    "d": [("d:iso", "2025-01-02"), ("d:epoch_s", 1735776000)],
+    "os": [("os:null", None), ("os:plain", "v"), ("os:empty", ""), ("os:absent", "__ABSENT__")],
+    "oi": [("oi:null", None), ("oi:value", 5), ("oi:zero", 0), ("oi:absent", "__ABSENT__")],
+}
+V_NORMAL = {"dt:iso": 1735787045, "dt:epoch_ms": 1735787045, "d:iso": 1735776000}
+V_PLAIN = {"i": 1, "u": 1, "f": 0.5, "s": "p", "b": True, "e": "red", "dt": 1735787045, "d": 1735776000, "os": "p", "oi": 1}
+
+
+class C07(Base):
+    id = "C07"
+    technique = "deterministic simulation: value round-trip across storage tiers (memory, WAL recovery, flushed, compacted, restart) with per-value-class attribution"
+    level_text = ("Every STORE carries one edge value (per field type: empty/long/non-ASCII/number-looking/'null'/'true' strings, i64 "
+                  "min/max, u64 above i64::MAX, integral/tiny/huge floats, booleans, enum variants, nulls and absent optionals, ISO and "
+                  "epoch times) in one field and plain values elsewhere, mixed inside one zone/segment; the history walks the events "
+                  "through memory, kill-restart before any flush (WAL JSON path), FLUSH, compaction (merge path) and restarts, and "
+                  "selection/REPLAY/RETURN are checked cell by cell against the stored (normalised) value at every checkpoint. "
+                  "A failure is attributed to the value class of the event that came back wrong.")
+    clauses = {"wrong-value", "lost", "duplicate-row", "foreign-row", "layout-variance", "return-columns", "frames", "read-error", "panic",
+               "rejected-valid"}
+    budgets = {"quick": {"histories": 100}, "thorough": {"histories": 3000}}
+
+    @staticmethod
+    def gen(seed, tier):
+        for i in range(C07.budgets[tier]["histories"]):
+            rng = rnd("C07", seed, i)
+            cfg = {"shard_count": rng.choice([1, 2]), "fill_factor": rng.choice([1, 2, 3]), "event_per_zone": rng.choice([1, 2, 4]),
+                   "segments_per_merge": 2, "wal": {"flush_each_write": True, "buffered": False}}
+            h = H(seed, "C07", cfg, uid_salt=f"C07-{seed}-{i}")
+            h.life(end="shutdown")
+            h.define("v", V_SCHEMA)
+            ctxs = ["c0", "c1"]
+            # a few value classes per history so that a known-bad class does not poison every history
+            fields = rng.sample(list(V_POOLS), rng.choice([1, 2, 3]))
+            classes = {}
+
+            def st():
+                k = h.new_k()
+                f = rng.choice(fields)
+                cls, val = rng.choice(V_POOLS[f])
+                payload = dict(V_PLAIN)
+                payload["k"] = k
+                stored = dict(payload)
+                if val == "__ABSENT__":
+                    del payload[f]
+                    stored[f] = None
+                else:
+                    payload[f] = val
+                    stored[f] = V_NORMAL.get(cls, val)
+                classes[k] = cls
+                h.store("v", rng.choice(ctxs), payload, k=k, stored=stored, vclass=cls)
+
+            def cp(tag):
+                h.step({"op": "barrier", "meta": {"kind": "checkpoint", "tag": tag}})
+                h.select("v", tag=tag)
+                h.replay(rng.choice(ctxs), "v", tag=tag)
+                if rng.random() < 0.5:
+                    ret = rng.sample([f for f in V_SCHEMA if f != "k"], rng.randrange(1, 4)) + ["k"]
+                    h.query({"type": "v", "ret": ret}, tag=tag, feat="return")
+            # first: WAL path (kill before any flush) for a prefix of the events
+            if rng.random() < 0.4:
+                for _ in range(rng.randrange(1, 4)):
+                    st()
+                cp("mem")
+                h.end("kill")
+                h.life(end="shutdown")
+                h.select("v", tag="rebase")
+                cp("wal-recovered")
+            layout_script(h, rng, st, rng.randrange(3, 10), cp)
+            yield h.done()
+
+
+# ====================================================================== C09
+
+A_SCHEMA = {"k": "int", "amt": "int", "qty": "int", "cur": ["EUR", "USD", "GBP"], "tag": "string", "note": "string | null", "at": "datetime"}
+
+
+def a_payload(k, rng):
+    return {"k": k, "amt": rng.choice([-5, 0, 1, 10, 10, 25, 1000]), "qty": rng.choice([1, 2, 3]), "cur": rng.choice(["EUR", "USD", "GBP"]),
+            "tag": rng.choice(["a", "b", "c"]), "note": rng.choice([None, "x", "y"]),
+            "at": D_BASE + rng.choice([0, 10, 3599, 3600, 86399, 86400, 7 * 86400, 40 * 86400])}
+
+
+class C09(Base):
+    id = "C09"
+    technique = "deterministic simulation: aggregates vs fold over the selection issued in the same frozen state, across shards/tiers; feature-level attribution"
+    level_text = ("Seeded event multisets split by the history over shards and over memory / flushed / compacted / recovered tiers; for "
+                  "every aggregate query (COUNT, COUNT f, COUNT UNIQUE, TOTAL, AVG, MIN, MAX; BY 0-2 fields incl. nullable and enum; PER "
+                  "hour/day/week/month on the timestamp or a payload datetime; WHERE / FOR; LIMIT) the selection with the same filter is "
+                  "issued first in the same state, and the aggregate table must equal the fold of each metric over exactly those rows "
+                  "(and over the model), each selected event in exactly one group, LIMIT only capping the number of groups; tables must "
+                  "be identical at every layout checkpoint of the same history.")
+    clauses = {"agg-vs-selection", "agg-vs-model", "agg-duplicate-group", "layout-variance", "frames", "read-error", "panic"}
+    budgets = {"quick": {"histories": 120}, "thorough": {"histories": 4000}}
+
+    @staticmethod
+    def gen(seed, tier):
+        def mk(rng, ctxs):
+            qs = []
+            for _ in range(rng.randrange(3, 7)):
+                base = {"type": "q"}
+                feat = []
+                x = rng.random()
+                if x < 0.2:
+                    base["ctx"] = rng.choice(ctxs)
+                    feat.append("FOR")
+                elif x < 0.45:
+                    base["where"] = atom_of_kind(rng, "n", rng.choice(["=", "<", ">=", "IN"])) if False else ("cmp", "amt", rng.choice(["=", "<", ">", ">="]), rng.choice([0, 10, 25]))
+                    feat.append("WHERE")
+                mk_ = rng.choice(["COUNT", "COUNT", "COUNTF", "UNIQUE", "TOTAL", "AVG", "MIN", "MAX", "MULTI"])
+                if mk_ == "COUNT":
+                    metrics = [("COUNT", None)]
+                elif mk_ == "COUNTF":
+                    metrics = [("COUNT", rng.choice(["note", "amt"]))]
+                elif mk_ == "UNIQUE":
+                    metrics = [("COUNT UNIQUE", rng.choice(["context_id", "tag", "cur"]))]
+                elif mk_ == "MULTI":
+                    metrics = [("COUNT", None), ("TOTAL", "amt"), ("AVG", "amt"), ("MIN", "amt"), ("MAX", "qty")]
+                else:
+                    metrics = [(mk_, rng.choice(["amt", "qty"]))]
+                feat.append(mk_)
+                q = dict(base, metrics=metrics)
+                y = rng.random()
+                if y < 0.35:
+                    q["by"] = [rng.choice(["cur", "tag", "qty"])]
+                    feat.append("BY:" + q["by"][0])
+                elif y < 0.45:
+                    q["by"] = ["cur", "tag"]
+                    feat.append("BY2")
+                elif y < 0.55:
+                    q["by"] = ["note"]
+                    feat.append("BY:nullable")
+                z = rng.random()
+                if z < 0.2:
+                    q["per"] = rng.choice(["HOUR", "DAY", "WEEK", "MONTH"])
+                    q["per_using"] = "at"
+                    feat.append("PER:" + q["per"])
+                elif z < 0.27:
+                    q["per"] = rng.choice(["HOUR", "DAY"])
+                    feat.append("PERts:" + q["per"])
+                if (q.get("by") or q.get("per")) and rng.random() < 0.2:
+                    q["limit"] = rng.choice([1, 2, 100])
+                    feat.append("LIMIT")
+                qs.append(("query", dict(base), "sel:" + "+".join(f for f in feat if f in ("FOR", "WHERE"))))
+                qs.append(("agg", q, "agg:" + "+".join(feat)))
+            return qs
+        for i in range(C09.budgets[tier]["histories"]):
+            yield query_history("C09", seed, i, mk, schema=A_SCHEMA, payload=a_payload)
+
+
+# ====================================================================== C10
+
+class C10(Base):
+    id = "C10"
+    technique = "deterministic simulation: ORDER BY/LIMIT/OFFSET slices vs model across shards and tiers; sort-key multiset oracle"
+    level_text = ("Seeded data with duplicate and missing sort keys (numeric, string, time, nullable), ascending/descending, n and m "
+                  "from {0,1,..,beyond the result size}, with WHERE/FOR, over >=2 shards, tiers mixed by the history and zone sizes 1-4. "
+                  "Returned sort keys must be sorted under the typed order, the multiset of sort keys must equal positions m..m+n of the "
+                  "model's order (ties free), LIMIT without ORDER BY must return min(n, matches) distinct matching events, OFFSET without "
+                  "LIMIT must be rejected, and answers must be identical at every layout checkpoint.")
+    clauses = {"order-unsorted", "order-slice", "order-extra", "limit-count", "query-extra", "duplicate-row", "foreign-row",
+               "layout-variance", "offset-without-limit", "frames", "read-error", "panic"}
+    budgets = {"quick": {"histories": 120}, "thorough": {"histories": 4000}}
+
+    @staticmethod
+    def gen(seed, tier):
+        def mk(rng, ctxs):
+            qs = []
+            for _ in range(rng.randrange(3, 7)):
+                q = {"type": "q"}
+                feat = []
+                x = rng.random()
+                if x < 0.15:
+                    q["ctx"] = rng.choice(ctxs)
+                    feat.append("FOR")
+                elif x < 0.35:
+                    q["where"] = ("cmp", "amt", rng.choice(["=", "<", ">="]), rng.choice([0, 10, 25]))
+                    feat.append("WHERE")
+                if rng.random() < 0.8:
+                    q["order"] = rng.choice(["amt", "amt", "qty", "tag", "at", "note", "k", "timestamp"])
+                    q["desc"] = rng.random() < 0.5
+                    feat.append("ORDER:" + q["order"] + (":desc" if q["desc"] else ":asc"))
+                    if rng.random() < 0.7:
+                        q["limit"] = rng.choice([0, 1, 2, 3, 5, 50])
+                        feat.append("LIMIT0" if q["limit"] == 0 else "LIMIT")
+                        if rng.random() < 0.5:
+                            q["offset"] = rng.choice([0, 1, 2, 4, 40])
+                            feat.append("OFFSET")
+                    qs.append(("ordered", q, "ord:" + "+".join(feat)))
+                else:
+                    q["limit"] = rng.choice([0, 1, 2, 5, 50])
+                    feat.append("LIMIT0" if q["limit"] == 0 else "LIMIT")
+                    qs.append(("query", q, "lim:" + "+".join(feat)))
+            qs.append(("expect_error", {"type": "q", "offset": 1}, "offset-without-limit"))
+            return qs
+        for i in range(C10.budgets[tier]["histories"]):
+            yield query_history("C10", seed, i, mk, schema=A_SCHEMA, payload=a_payload, shards=(2, 3, 1))
+
+
 # ====================================================================== registry
 
-PROFILES = {"C01": C01, "C02": C02, "C03": C03, "C04": C04, "C05": C05, "C11": C11, "C12": C12, "C18": C18}
+PROFILES = {"C01": C01, "C02": C02, "C03": C03, "C04": C04, "C05": C05, "C07": C07, "C09": C09, "C10": C10, "C11": C11, "C12": C12, "C18": C18}
 
 NOT_APPLICABLE = {
     "C08": "pure function of (zone value multiset, probe): no schedule, clock, fault or history in it; its end-to-end consequence is covered by C02's layout-invariance oracle",
@@ -770,7 +985,7 @@ NOT_APPLICABLE = {
     "C17": "totality of parsing/dispatch is a pure function of the input string; no interleaving, crash or clock involved",
     "C20": "pure function of (result batch, renderer); no nondeterminism or fault surface",
 }
-for _p in ("C06","C07","C09","C10","C13","C14","C15","C19"):
+for _p in ("C06","C13","C14","C15","C19"):
     NOT_APPLICABLE.setdefault(_p, "check under construction in this session (claimed by DESIGN.md; profile not yet registered)")
 
 
